@@ -531,13 +531,17 @@ BUDGET = {
 EVIDENCE = {
     "level": "fault_enumeration",
     "rule": (
-        "Two parts. (1) enumerated: every single fault (kinds F1 unknown-module, F2 unknown-test, F3 params-rejected x5, "
-        "F4 input-missing x2, F5 stream-absent, F6 raises-on-data x16 exception classes x with/without scribbling) at every "
-        "insertion position of every stream of every context of two fixed base configs, on each of the six stream front ends. "
-        "(2) seeded search: generated tables/configs with 0-4 faults of a random subset of kinds, 1-6 front ends plus QcConfig.run "
-        "advanced under a seeded interleaving with abandon/restart and re-run. A case is non-trivial when it contains at least "
-        "one fault entry or more than one context; distinct = distinct (digest of all yielded results, digest of the event-kind "
-        "sequence)."
+        "Two parts, every case in its own forked process, every solo reference run in a pristine grandchild forked before the faulty run "
+        "starts. (1) enumerated over two fixed base configs x six stream front ends: every single fault (F1 unknown-module, F2 "
+        "unknown-test, F3 params-rejected x6 incl. a climatology member that is rejected, F4 input-missing x2, F5 stream-absent, F6 "
+        "raises-on-data x16 exception classes x with/without scribbling) at every insertion position of every stream of every context "
+        "(F3 and two F6 classes also re-run on the same objects); a whole context made only of absent streams at every context position; "
+        "abandon + restart at every yield point for no fault / a scribbling fault / a rejected-parameter fault. (2) seeded search: "
+        "generated tables/configs (all C05 table variations except NaT / sub-second clocks) with 0-4 faults of a random subset of kinds "
+        "incl. data-dependent F6, uncopyable parameter objects, absent ids xarray could still resolve, dead contexts, fault storms (11-16 "
+        "of one kind), sources without time, xarray variables on a dimension of their own; 1-6 front ends plus QcConfig.run advanced under "
+        "a seeded interleaving with abandon/restart and up to two re-runs. Non-trivial: at least one fault entry or more than one context; "
+        "distinct = distinct (digest of all yielded results, digest of the event-kind sequence). "
     ),
     "exhaustive_scope": "single-fault family, dead-context family and abandon-at-every-yield-point family over the two base configs only (coverage.enumerated_cases); the seeded search is sampling",
     "real": [
